@@ -20,8 +20,11 @@ from mdsa.astutil import call_attr, chain, local_calls, norm, store_targets
 from mdsa.cfg import CFG, walk_local
 from mdsa.loader import AnalysisError, NoFold
 
+from mdsa import match as M
+
 from . import c02
 from .common import Ctx, guarded_interproc, index_kind, local_defs, node_of
+from .sem import F
 
 O = "ih5.overlay"
 EXPLANATION = (
@@ -37,8 +40,9 @@ EXPLANATION = (
 )
 NOT_DECIDED = "equality of the overlay view with the reference tree over all histories and patch placements (runtime values); key validation of create_group names (outside the documented key alphabet quantifier)"
 
-PATCH_TRUE = {"len(self._files) > 1", "len(self._files) >= 2", "self._last_idx > 0", "self._last_idx >= 1", "1 < len(self._files)"}
-PATCH_FALSE = {"len(self._files) == 1", "len(self._files) <= 1", "len(self._files) < 2", "self._last_idx == 0", "not len(self._files) > 1"}
+HAS_PATCHES = ("len(self._files) > 1", "self._last_idx > 0", "self._last_idx >= 1", "1 < len(self._files)", "0 < self._last_idx")
+NO_PATCHES = ("len(self._files) == 1", "self._last_idx == 0", "self._last_idx < 1")
+NEWEST = ("self._files[-1]", "self._files[self._last_idx]")
 
 
 def run(P, rep, tier):
@@ -60,91 +64,101 @@ def run(P, rep, tier):
     rep.floor("C01.R5", 22)
 
 
+def _newest(*tails):
+    return [n + t for n in NEWEST for t in tails]
+
+
 # ------------------------------------------------------------------------------------------- R1
 def r1_children(P, rep, ctx):
     fi = P.func(f"{O}.IH5InnerNode._children")
-    g = ctx.cfg(fi)
+    f = F(ctx, fi)
+    g = f.g
     # outer scan
-    outer = [n for n in g.nodes if n.kind == "for" and "range(" in norm(n.stmt.iter) and "_files" in norm(n.stmt.iter)]
+    outer = [n for n in g.nodes if n.kind == "for" and "range(" in f.x(n.stmt.iter) and "_files" in f.x(n.stmt.iter)]
     if len(outer) != 1:
         raise AnalysisError("C01.R1: container scan loop of _children not found")
     oi = outer[0]
-    it = norm(oi.stmt.iter)
+    it = f.x(oi.stmt.iter)
     ivar = norm(oi.stmt.target)
-    rep.check(it in ("reversed(range(self._cidx, len(self._files)))", "range(len(self._files) - 1, self._cidx - 1, -1)"), "C01.R1", fi.qual, "scan runs from the newest container down to the node's lower bound", fi.loc(oi.stmt),
+    rep.check(it in ("reversed(range(self._cidx, len(self._files)))", "range(len(self._files) - 1, self._cidx - 1, -1)", "range(self._last_idx, self._cidx - 1, -1)"), "C01.R1", fi.qual, "scan runs from the newest container down to the node's lower bound", fi.loc(oi.stmt),
               construct=f"scan order {it}", message=f"_children scans containers as `{it}`: resolution must go newest → oldest and stop at the node's lower bound (_cidx)")
-    inner = [n for n in g.nodes if n.kind == "for" and norm(n.stmt.iter) in ("obj.keys()", "obj")]
-    if len(inner) != 1:
+    # stores  <map>[<key loop variable>] = ...
+    loopvars = {norm(n.stmt.target): n for n in g.nodes if n.kind == "for" and n is not oi and isinstance(n.stmt.target, ast.Name)}
+    bound_stores = [n for n in g.nodes if n.kind == "stmt" and isinstance(n.stmt, ast.Assign) and any(isinstance(t, ast.Subscript) and norm(t.slice) in loopvars and isinstance(t.value, ast.Name) for t in n.stmt.targets)]
+    kvars = {norm(t.slice) for n in bound_stores for t in n.stmt.targets if isinstance(t, ast.Subscript)}
+    if len(kvars) != 1:
         raise AnalysisError("C01.R1: key loop of _children not found")
-    kn = inner[0]
-    kvar = norm(kn.stmt.target)
-    # stores to the bound map
-    bound_stores = [n for n in g.nodes if n.kind == "stmt" and isinstance(n.stmt, ast.Assign) and any(isinstance(t, ast.Subscript) and norm(t.slice) == kvar and isinstance(t.value, ast.Name) for t in n.stmt.targets)]
+    kvar = kvars.pop()
+    kn = loopvars[kvar]
     maps = {}
     for n in bound_stores:
         for t in n.stmt.targets:
             maps.setdefault(norm(t.value), []).append(n)
     # the bound map is the one returned (through the final comprehension over <map>.items())
-    ret = [x for x in walk_local(fi.node) if isinstance(x, ast.Return) and isinstance(x.value, ast.DictComp)]
+    ret = [v for _, v in f.returns() if v is not None and isinstance(f.xe(v), ast.DictComp)]
     if len(ret) != 1:
         raise AnalysisError("C01.R1: result comprehension of _children not found")
-    comp = ret[0].value
+    comp = f.xe(ret[0])
     src = norm(comp.generators[0].iter)
-    bmap = next((m for m in maps if f"{m}.items()" in src), None)
+    bmap = next((m for m in maps if f"{m}.items()" in norm(ret[0] if isinstance(ret[0], ast.DictComp) else comp) or f"{m}.items()" in src), None)
     if bmap is None:
         raise AnalysisError("C01.R1: bound map of _children not identified")
-    first_tests = [t.idx for t in g.nodes if t.kind == "test" and norm(t.exprs[0]) == f"{kvar} not in {bmap}"]
-    lowering = [n for n in maps[bmap] if not any(g.edge_dominates(t, "T", n.idx) for t in first_tests)]
+    known = f.tests(f"{kvar} in {bmap}")  # edges on which the child was seen before (in a newer container)
+    unseen = f.neg(known)
+    lowering = [n for n in maps[bmap] if not f.hit_before(n.idx, edges=unseen, src=kn.idx)]
     firsts = [n for n in maps[bmap] if n not in lowering]
     rep.check(bool(firsts) and all(norm(n.stmt.value) == ivar for n in firsts), "C01.R1", fi.qual, "first (newest) sighting of a child sets its bound to the current container index", fi.loc(),
               construct="first sighting store", message="the first sighting of a child does not record the current container index")
     flagmaps = [m for m in maps if m != bmap]
     if not lowering:
         rep.info("_children never lowers an existing bound (no virtual extension): nothing to check for R1 lowering")
+    refresh_pat = f"_node_is_virtual(self._get_child_raw({kvar}, {ivar}))"
     for n in lowering:
         loc = fi.loc(n.stmt)
         # (a) control dependent on the per-key flag
-        tests = [t.idx for t in g.nodes if t.kind == "test" and any(norm(t.exprs[0]) in (f"{m}[{kvar}]", f"{m}.get({kvar})", f"{kvar} in {m} and {m}[{kvar}]") for m in flagmaps)]
-        dep = any(g.edge_dominates(t, "T", n.idx) for t in tests)
+        still_virtual = f.tests(*[x for m in flagmaps for x in (f"{m}[{kvar}]", f"{m}.get({kvar})", f"{m}.get({kvar}, False)")])
+        dep = bool(still_virtual) and f.hit_before(n.idx, edges=still_virtual, src=kn.idx)
         rep.check(dep, "C01.R1", fi.qual, "lowering an existing bound is conditional on the child's still-virtual flag", loc, construct=f"lowering store {norm(n.stmt)}",
                   message=f"`{norm(n.stmt)}` lowers the bound of a child without consulting its virtual flag: children of a replaced group reappear")
         # (b) flag refreshed from the raw child at the current index on every path back to the key loop
-        refresh = [r.idx for m in flagmaps for r in maps[m] if norm(r.stmt.value) == f"_node_is_virtual(self._get_child_raw({kvar}, {ivar}))"]
+        refresh = [r.idx for m in flagmaps for r in maps[m] if f.x(r.stmt.value) == refresh_pat]
         back = g.every_path_passes(refresh, kn.idx, src=n.idx) if refresh else False
         rep.check(back, "C01.R1", fi.qual, "the virtual flag is refreshed from the raw child at the current index whenever the bound is lowered", loc, construct=f"flag refresh after {norm(n.stmt)}",
                   message="after lowering a child's bound the 'still virtual' flag is not refreshed from the node seen in this container: a replace in patch k followed by a touch in patch k+1 slides the bound below k and resurrects the replaced group's old children",
                   path=g.path_text(g.find_path(kn.idx, avoid=refresh, src=n.idx)))
-        rep.check(norm(n.stmt.value) in (f"min({norm(n.stmt.targets[0])}, {ivar})", ivar), "C01.R1", fi.qual, "the bound is lowered to the current container index", loc, construct=f"lowered value {norm(n.stmt.value)}",
+        rep.check(f.x(n.stmt.value) in (f"min({norm(n.stmt.targets[0])}, {ivar})", f"min({ivar}, {norm(n.stmt.targets[0])})", ivar), "C01.R1", fi.qual, "the bound is lowered to the current container index", loc, construct=f"lowered value {norm(n.stmt.value)}",
                   message=f"bound lowered to {norm(n.stmt.value)}")
     for m in flagmaps:
-        fs = [r for r in maps[m] if any(g.edge_dominates(t, "T", r.idx) for t in first_tests)]
-        rep.check(bool(fs) and all(norm(r.stmt.value) == f"_node_is_virtual(self._get_child_raw({kvar}, {ivar}))" for r in fs), "C01.R1", fi.qual, "flag initialised from the newest sighting", fi.loc(), construct="flag init",
+        fs = [r for r in maps[m] if f.hit_before(r.idx, edges=unseen, src=kn.idx)]
+        rep.check(bool(fs) and all(f.x(r.stmt.value) == refresh_pat for r in fs), "C01.R1", fi.qual, "flag initialised from the newest sighting", fi.loc(), construct="flag init",
                   message="the virtual flag is not initialised from the newest sighting of the child")
-    # result filter
-    conds = []
-    for c in comp.generators[0].ifs:
-        conds += c.values if isinstance(c, ast.BoolOp) and isinstance(c.op, ast.And) else [c]
+    # result filter: conjuncts of the comprehension conditions
+    conds = [c for i in comp.generators[0].ifs for c in M.conjuncts(i)]
     tv = [norm(t) for t in (comp.generators[0].target.elts if isinstance(comp.generators[0].target, ast.Tuple) else [])]
     kk, ix = (tv + ["k", "idx"])[:2]
     delc = [c for c in conds if "_node_is_del_mark" in norm(c)]
-    ok = len(delc) == 1 and norm(delc[0]) == f"not _node_is_del_mark(self._get_child_raw({kk}, {ix}))"
+    ok = len(delc) == 1 and M.equivalent(delc[0], f"not _node_is_del_mark(self._get_child_raw({kk}, {ix}))")
     rep.check(ok, "C01.R1", fi.qual, "entries whose resolved node is a deletion mark are dropped unconditionally", fi.loc(ret[0]), construct="deletion filter of _children",
               message=f"the result of _children does not drop deletion marks unconditionally (filter: {[norm(c) for c in delc] or 'none'}): deleted entries stay visible")
     subc = [c for c in conds if "SUBST_KEY" in norm(c)]
-    ok = len(subc) == 1 and norm(subc[0]) in (f"not self._is_attrs or {kk} != SUBST_KEY", f"{kk} != SUBST_KEY or not self._is_attrs")
+    ok = len(subc) == 1 and M.equivalent(subc[0], f"not self._is_attrs or {kk} != SUBST_KEY")
     rep.check(ok, "C01.R1", fi.qual, "the substitution marker attribute is hidden from attribute listings", fi.loc(ret[0]), construct="SUBST filter of _children", message="the SUBST marker attribute is not filtered from attribute listings")
     rep.check(norm(comp.key) == kk and norm(comp.value) == ix, "C01.R1", fi.qual, "result maps each child to its resolved bound", fi.loc(ret[0]), construct="result mapping", message="result comprehension does not map child -> bound")
     # resolution by successive child lookup uses _children of each prefix
-    ns = P.func(f"{O}.IH5InnerNode._node_seq")
-    t = norm(ns.node)
-    rep.check("curr._children().get(seg, -1)" in t and "curr._get_child(seg, nxt_cidx)" in t, "C01.R1", ns.qual, "path resolution looks every segment up through _children of the previous node", ns.loc(), construct="_node_seq lookup",
+    ns = F(ctx, P.func(f"{O}.IH5InnerNode._node_seq"))
+    look = ns.call_sites("__c._children().get(__s, ___)")
+    step = ns.call_sites("__c._get_child(__s, __i)")
+    ok = bool(look) and bool(step) and any(norm(a[2]["__c"]) == norm(b[2]["__c"]) and norm(a[2]["__s"]) == norm(b[2]["__s"]) for a in look for b in step)
+    rep.check(ok, "C01.R1", ns.fi.qual, "path resolution looks every segment up through _children of the previous node", ns.fi.loc(), construct="_node_seq lookup",
               message="_node_seq does not resolve segments through `curr._children().get(seg)` / `curr._get_child(seg, idx)`")
 
 
 # ------------------------------------------------------------------------------------------- R2
-def may_be_patch_exits(g: CFG, stores: Set[int]) -> Optional[List[int]]:
+def may_be_patch_exits(f: "F", stores: Set[int]) -> Optional[List[int]]:
     """Abstract interpretation over {U: record may have patches, N: known to have none}.  Returns a path
     (node indices) from entry to the normal exit in state U that passes no marker store, or None."""
+    g = f.g
+    to_n = set(f.neg(f.tests(*HAS_PATCHES))) | set(f.tests(*NO_PATCHES))  # out-edges on which the record has no patches
     start = (g.entry, "U")
     prev = {start: None}
     todo = [start]
@@ -156,20 +170,10 @@ def may_be_patch_exits(g: CFG, stores: Set[int]) -> Optional[List[int]]:
                 out.append(x[0])
                 x = prev[x]
             return list(reversed(out))
-        n = g.nodes[node]
         for b, lab in g.succ[node]:
             if b in stores:
                 continue  # obligation met on this path
-            st2 = st
-            if n.kind == "test":
-                t = norm(n.exprs[0])
-                conj = [norm(v) for v in n.exprs[0].values] if isinstance(n.exprs[0], ast.BoolOp) and isinstance(n.exprs[0].op, ast.And) else [t]
-                if t in PATCH_TRUE and lab == "F":
-                    st2 = "N"
-                elif t in PATCH_FALSE and lab == "T":
-                    st2 = "N"
-                elif any(c in PATCH_FALSE for c in conj) and lab == "T":
-                    st2 = "N"
+            st2 = "N" if (node, lab) in to_n else st
             key = (b, st2)
             if key not in prev:
                 prev[key] = (node, st)
@@ -177,126 +181,123 @@ def may_be_patch_exits(g: CFG, stores: Set[int]) -> Optional[List[int]]:
     return None
 
 
-def _marker_stores(g: CFG, attr: bool) -> List[int]:
-    out = []
-    for n in g.nodes:
-        if n.kind != "stmt" or not isinstance(n.stmt, ast.Assign) or norm(n.stmt.value) != "DEL_VALUE":
-            continue
-        for t in n.stmt.targets:
-            ch = chain(t) or []
-            txt = norm(t)
-            if attr:
-                ok = txt == "self._files[-1][self._gpath].attrs[key]"
-            else:
-                ok = len(ch) == 4 and ch[1] == ("attr", "_files") and index_kind(ch[2][1]) == "newest" and ch[3][0] == "sub"
-            if ok:
-                out.append(n.idx)
-    return out
+def has_patch_idiom(f: "F") -> bool:
+    return bool(f.tests(*HAS_PATCHES) or f.tests(*NO_PATCHES))
 
 
 def r2_delete_marker(P, rep, ctx):
     for q, attr in ((f"{O}.IH5Group.__delitem__", False), (f"{O}.IH5AttributeManager.__delitem__", True)):
         fi = P.func(q)
-        g = ctx.cfg(fi)
-        stores = _marker_stores(g, attr)
+        f = F(ctx, fi)
+        g = f.g
+        key = fi.params[1]
+        pats = _newest("[self._gpath].attrs[__k]") if attr else _newest("[__k]")
+        st_all = [(i, v, b) for p_ in pats for i, v, b in f.stores(p_) if norm(v) == "DEL_VALUE"]
+        stores = sorted({i for i, v, b in st_all})
         rep.check(bool(stores), "C01.R2", fi.qual, "a DEL_VALUE store into the newest container exists", fi.loc(), construct="DEL_VALUE store", message=f"{fi.name} never stores the deletion marker into _files[-1]")
         if not stores:
             continue
-        has_idiom = any(n.kind == "test" and any(i in norm(n.exprs[0]) for i in PATCH_TRUE | PATCH_FALSE) for n in g.nodes)
-        if not has_idiom and not g.every_path_passes(stores, g.exit):
+        if not has_patch_idiom(f) and not g.every_path_passes(stores, g.exit):
             raise AnalysisError(f"C01.R2: no recognised 'record has patches' test in {q}")
-        bad = may_be_patch_exits(g, set(stores))
+        bad = may_be_patch_exits(f, set(stores))
         rep.check(bad is None, "C01.R2", fi.qual, "every normal exit on which the record may have patches passed the deletion-marker store", fi.loc(), construct=f"deletion marker on patch paths of {fi.name}",
                   message=f"{fi.name} can return on a patched record without leaving a deletion marker in the newest container: the value from an older container shows through again",
                   path=g.path_text(bad))
         # marker is written at the deleted key (path derived from `key`)
-        for s in stores:
-            st = g.nodes[s].stmt
-            t = st.targets[0]
-            keyexpr = t.slice if attr else (chain(t)[3][1])
-            if attr:
-                ok = norm(keyexpr) == "key"
-            else:
-                defs = [norm(x.value) for x in walk_local(fi.node) if isinstance(x, ast.Assign) and any(norm(tt) == norm(keyexpr) for tt in x.targets)]
-                ok = defs == ["self._abs_path(key)"]
-            rep.check(ok, "C01.R2", fi.qual, "the marker is stored at the deleted key", fi.loc(st), construct=f"marker target {norm(t)}", message=f"deletion marker is stored at {norm(t)}, not at the deleted key")
+        for i, v, b in st_all:
+            kx = f.x(b["__k"])
+            ok = kx == key if attr else kx == f"self._abs_path({key})"
+            rep.check(ok, "C01.R2", fi.qual, "the marker is stored at the deleted key", f.loc(i), construct=f"marker target of {fi.name}", message=f"deletion marker is stored at {kx}, not at the deleted key")
         # existence check first
-        ex = [n.idx for n in g.nodes if any(call_attr(c) == "_expect_real_item_idx" for c in g.calls(n.idx))]
+        ex = f.calls("self._expect_real_item_idx(___)")
         writes = [n for f_, n, d, k in c02.overlay_raw_writes(P, ctx, modules=("ih5.overlay",)) if f_.qual == q]
         rep.check(bool(ex) and all(g.every_path_passes(ex, w) for w in writes), "C01.R2", fi.qual, "existence of the item is checked before anything is written", fi.loc(), construct="existence check before delete",
                   message=f"{fi.name} writes before checking that the item exists (a failing delete would leave an effect / deleting a missing item succeeds)")
         # real delete in the newest container when present there
         dels = [n for n in g.nodes if n.kind == "stmt" and isinstance(n.stmt, ast.Delete)]
         rep.check(bool(dels), "C01.R2", fi.qual, "the entity is really deleted from the newest container when it lives there", fi.loc(), construct="real delete", message=f"{fi.name} never removes the entity from the newest container")
-    fi = P.func(f"{O}.IH5InnerNode._expect_real_item_idx")
-    t = norm(fi.node)
-    rep.check("found_cidx is None or _node_is_del_mark(self._get_child(key, found_cidx))" in t and "raise KeyError" in t, "C01.R2", fi.qual, "_expect_real_item_idx raises for missing or deleted items", fi.loc(),
-              construct="_expect_real_item_idx", message="_expect_real_item_idx does not raise KeyError for missing / already deleted items")
+    f = F(ctx, P.func(f"{O}.IH5InnerNode._expect_real_item_idx"))
+    key = f.fi.params[1]
+    missing = f.tests(f"self._find({key}) is None")
+    deleted = f.tests(f"_node_is_del_mark(self._get_child({key}, self._find({key})))")
+    ok = f.refuses(missing) and f.refuses(deleted) and f.hit_before(f.g.exit, edges=f.neg(missing)) and f.hit_before(f.g.exit, edges=f.neg(deleted))
+    rep.check(ok, "C01.R2", f.fi.qual, "_expect_real_item_idx raises for missing or deleted items", f.fi.loc(), construct="_expect_real_item_idx", message="_expect_real_item_idx does not raise KeyError for missing / already deleted items")
 
 
 # ------------------------------------------------------------------------------------------- R3
 def r3_create(P, rep, ctx):
     fi = P.func(f"{O}.IH5Group.create_group")
-    g = ctx.cfg(fi)
-    marks = [n.idx for n in g.nodes if n.kind == "stmt" and isinstance(n.stmt, ast.Assign) and any(norm(t) == "self._files[-1][path].attrs[SUBST_KEY]" for t in n.stmt.targets)]
+    f = F(ctx, fi)
+    g = f.g
+    marks = sorted({i for p_ in _newest("[__p].attrs[SUBST_KEY]") for i, v, b in f.stores(p_)})
     rep.check(bool(marks), "C01.R3", fi.qual, "create_group can mark the new group as substituting", fi.loc(), construct="SUBST_KEY store", message="create_group never sets the substitution marker")
     if marks:
-        bad = may_be_patch_exits(g, set(marks))
+        bad = may_be_patch_exits(f, set(marks))
         rep.check(bad is None, "C01.R3", fi.qual, "on a patched record every created group carries the substitution marker", fi.loc(), construct="SUBST_KEY on patch paths of create_group",
                   message="create_group can return on a patched record without marking the new group as substituting: children of a deleted/older group at that path become visible again", path=g.path_text(bad))
-    raw_create = [n.idx for n in g.nodes if any(call_attr(c) == "create_group" and norm(c.func.value) == "self._files[-1]" for c in g.calls(n.idx))]
-    tests = [t.idx for t in g.nodes if t.kind == "test" and norm(t.exprs[0]) == "path in self._files[-1] and _node_is_del_mark(self._files[-1][path])"]
-    dels = [n.idx for n in g.nodes if n.kind == "stmt" and norm(n.stmt) == "del self._files[-1][path]"]
-    ok = bool(raw_create) and bool(tests) and bool(dels) and all(g.every_path_passes(dels, r, src=t, src_label="T") for t in tests for r in raw_create) and all(g.every_path_passes(tests, r) for r in raw_create)
+    raw_create = f.calls(*_newest(".create_group(___)"))
+    present = f.tests(*[f"__p in {n}" for n in NEWEST])
+    is_mark = f.tests(*[f"_node_is_del_mark({n}[__p])" for n in NEWEST], "_node_is_del_mark(self._get_child_raw(__p, self._last_idx))")
+    dels = sorted({i for p_ in _newest("[__p]") for i in f.deletes(p_)})
+    ok = bool(raw_create) and bool(present) and bool(is_mark) and bool(dels) and f.all_hit_before(raw_create, nodes=dels, edges=f.neg(present) + f.neg(is_mark)) and f.all_hit_before(dels, edges=is_mark)
     rep.check(ok, "C01.R3", fi.qual, "a stale deletion marker at the path is removed before the group is created", fi.loc(), construct="stale marker removal in create_group",
               message="create_group does not remove a deletion marker left at the path in the newest container before creating the group")
     # nested creation below a missing / deleted ancestor: the first missing ancestor goes through the overlay create_group
-    rec = [n.idx for n in g.nodes if any(call_attr(c) in ("create_group", "_create_virtual") and norm(c.func.value) == "self" for c in g.calls(n.idx))]
-    nest_t = [t.idx for t in g.nodes if t.kind == "test" and norm(t.exprs[0]) in ("len(missing_segs) > 1", "len(missing_segs) >= 2", "len(segs) > 1")]
-    ok = bool(rec) and bool(raw_create) and ((bool(nest_t) and all(g.every_path_passes(rec, r, src=t, src_label="T") for t in nest_t for r in raw_create) and all(g.every_path_passes(nest_t, r) for r in raw_create)) or all(g.every_path_passes(rec, r) for r in raw_create))
+    rec = f.calls("self.create_group(___)", "self._create_virtual(___)")
+    nested = f.tests("len(__m) > 1")
+    ok = bool(rec) and bool(raw_create) and f.all_hit_before(raw_create, nodes=rec, edges=f.neg(nested))
     rep.check(ok, "C01.R3", fi.qual, "for a nested path the first missing ancestor is created through the overlay (marker removal + substitution) before the raw nested create", fi.loc(), construct="nested create_group ancestors",
               message="create_group hands a nested path with missing ancestors straight to the raw create_group: below an ancestor deleted in the current patch (deletion-marker dataset) this fails, and carriers created implicitly do not shadow older content")
-    rets = [norm(x.value) for x in walk_local(fi.node) if isinstance(x, ast.Return)]
-    rep.check(rets == ["IH5Group(self._record, path, self._last_idx)"], "C01.R3", fi.qual, "the new group's lower bound is the newest container", fi.loc(), construct="create_group result", message=f"create_group returns {rets}")
-    exist = [t for t in g.nodes if t.kind == "test" and norm(t.exprs[0]) == "nodes[-1]._gpath == path"]
-    rep.check(bool(exist) and all(g.exit not in g.reach([b for b, l in g.succ[t.idx] if l == "T"]) for t in exist) and all(g.every_path_passes([t.idx for t in exist], r) for r in raw_create), "C01.R3", fi.qual,
+    rets = [v for _, v in f.returns()]
+    ok = len(rets) >= 1 and all(v is not None and M.xmatch(fi.node, "IH5Group(self._record, __p, self._last_idx)", v) is not None and f.x(M.xmatch(fi.node, "IH5Group(self._record, __p, self._last_idx)", v)["__p"]) == f"self._abs_path({fi.params[1]})" for v in rets)
+    rep.check(ok, "C01.R3", fi.qual, "the new group's lower bound is the newest container", fi.loc(), construct="create_group result", message=f"create_group returns {f.return_texts()}")
+    exist = f.tests("__n[-1]._gpath == __p")
+    rep.check(f.refuses(exist) and f.all_hit_before(raw_create, nodes=f.test_nodes(exist)), "C01.R3", fi.qual,
               "creating an existing group is refused before any write", fi.loc(), construct="exists test in create_group", message="create_group does not refuse an existing path before writing")
     fi = P.func(f"{O}.IH5Group.create_dataset")
-    g = ctx.cfg(fi)
-    raw = [n.idx for n in g.nodes if any(call_attr(c) == "create_dataset" and norm(c.func.value) == "self._files[-1]" for c in g.calls(n.idx))]
-    dels = [n.idx for n in g.nodes if n.kind == "stmt" and norm(n.stmt) == "del self._files[-1][path]"]
-    mtests = [t.idx for t in g.nodes if t.kind == "test" and norm(t.exprs[0]) == "path in self._files[-1] and _node_is_del_mark(self._get_child_raw(path, self._last_idx))"]
-    ok = bool(raw) and bool(dels) and bool(mtests) and all(g.every_path_passes(dels, r, src=t, src_label="T") for t in mtests for r in raw) and all(g.every_path_passes(mtests, r) for r in raw)
+    f = F(ctx, fi)
+    g = f.g
+    raw = f.calls(*_newest(".create_dataset(___)"))
+    dels = sorted({i for p_ in _newest("[__p]") for i in f.deletes(p_)})
+    present = f.tests(*[f"__p in {n}" for n in NEWEST])
+    is_mark = f.tests(*[f"_node_is_del_mark({n}[__p])" for n in NEWEST], "_node_is_del_mark(self._get_child_raw(__p, self._last_idx))")
+    ok = bool(raw) and bool(dels) and bool(present) and bool(is_mark) and f.all_hit_before(raw, nodes=dels, edges=f.neg(present) + f.neg(is_mark))
     rep.check(ok, "C01.R3", fi.qual, "a stale deletion marker at the path in the newest container is removed before the dataset is created", fi.loc(), construct="stale marker removal in create_dataset",
               message="create_dataset does not remove a deletion marker left at the path in the newest container before creating the dataset")
-    virt = [n.idx for n in g.nodes if any(call_attr(c) == "_create_virtual" for c in g.calls(n.idx))]
-    tests = [t.idx for t in g.nodes if t.kind == "test" and norm(t.exprs[0]) == "path not in self._files[-1]"]
-    ok = bool(virt) and bool(tests) and all(any(g.edge_dominates(t, "T", v) for t in tests) for v in virt)
+    virt = f.calls("self._create_virtual(___)")
+    ok = bool(virt) and bool(present) and f.all_hit_before(virt, edges=f.neg(present))
     rep.check(ok, "C01.R3", fi.qual, "missing ancestors are created as carriers/overwrite groups only when the path is absent from the newest container", fi.loc(), construct="_create_virtual placement", message="_create_virtual is not confined to the `path not in newest container` case")
-    refuse = [t for t in g.nodes if t.kind == "test" and norm(t.exprs[0]) == "isinstance(prev_val, (IH5Group, IH5Dataset))"]
-    rep.check(bool(refuse) and all(g.exit not in g.reach([b for b, l in g.succ[t.idx] if l == "T"]) for t in refuse), "C01.R3", fi.qual, "an existing group/dataset at the path is refused (replace = delete first)", fi.loc(),
+    refuse = f.tests("isinstance(__v, (IH5Group, IH5Dataset))")
+    rep.check(f.refuses(refuse), "C01.R3", fi.qual, "an existing group/dataset at the path is refused (replace = delete first)", fi.loc(),
               construct="exists test in create_dataset", message="create_dataset does not refuse an existing group/dataset")
     cv = P.func(f"{O}.IH5Group._create_virtual")
-    gv = ctx.cfg(cv)
-    tests = {norm(x.exprs[0]): x.idx for x in gv.nodes if x.kind == "test"}
-    t_exists = "nodes[-1]._gpath == path and nodes[-1]._cidx == self._last_idx and (not _node_is_del_mark(nodes[-1]))"
-    t_missing = "nodes[-1]._gpath != path or _node_is_del_mark(nodes[-1])"
-    t_nested = "len(suf_segs) > 1"
-    okv = all(k in tests for k in (t_exists, t_missing, t_nested))
+    v = F(ctx, cv)
+    gv = v.g
+    at_path = v.tests("__n[-1]._gpath == __p")
+    in_newest = v.tests("__n[-1]._cidx == self._last_idx")
+    deleted = v.tests("_node_is_del_mark(__n[-1])")
+    nested = v.tests("len(__s) > 1")
+    okv = all((at_path, in_newest, deleted, nested))
     if okv:
-        rets = {n.idx: norm(n.stmt.value) for n in gv.nodes if isinstance(n.stmt, ast.Return)}
-        f_ret = [i for i, v in rets.items() if v == "False"]
-        t_ret = [i for i, v in rets.items() if v == "True"]
-        ow = [n.idx for n in gv.nodes if n.kind == "stmt" and norm(n.stmt) == "self.create_group(f'{nodes[-1]._gpath}/{suf_segs[0]}')"]
-        carr = [n.idx for n in gv.nodes if n.kind == "stmt" and norm(n.stmt) == "self._files[-1].create_group(path)"]
-        okv = (bool(f_ret) and all(gv.edge_dominates(tests[t_exists], "T", i) for i in f_ret) and bool(t_ret) and bool(ow) and bool(carr)
-               and all(gv.edge_dominates(tests[t_missing], "T", i) for i in ow) and gv.every_path_passes(ow, gv.exit, src=tests[t_missing], src_label="T")
-               and all(gv.edge_dominates(tests[t_nested], "T", i) and gv.every_path_passes(ow, i) for i in carr) and gv.every_path_passes(carr, gv.exit, src=tests[t_nested], src_label="T")
-               and gv.every_path_passes([tests[t_exists]], gv.exit) and all(gv.every_path_passes([tests[t_missing]], i) for i in t_ret))
+        f_ret = [i for i, x in v.returns() if x is not None and norm(x) == "False"]
+        t_ret = [i for i, x in v.returns() if x is not None and norm(x) == "True"]
+        ow = v.calls("self.create_group(___)")
+        carr = v.calls(*_newest(".create_group(___)"))
+        missing_or_deleted = v.neg(at_path) + deleted
+        okv = (bool(f_ret) and bool(t_ret) and bool(ow) and bool(carr)
+               # "nothing to do" only for a live node at the path in the newest container
+               and all(v.under_all(i, [at_path, in_newest, v.neg(deleted)]) for i in f_ret)
+               # overwrite group exactly when missing or deleted, and then on every path
+               and all(v.hit_before(i, edges=missing_or_deleted) for i in ow)
+               and all(v.hit_before(gv.exit, nodes=ow, src_edge=e) for e in missing_or_deleted)
+               # carriers only for nested suffixes, after the overwrite group, and then always
+               and all(v.hit_before(i, edges=nested) and v.hit_before(i, nodes=ow) for i in carr)
+               and all(v.hit_before(gv.exit, nodes=carr, src_edge=e) for e in nested))
     rep.check(okv, "C01.R3", cv.qual, "write path: nothing to do only if a live node exists in the newest container; otherwise the first missing ancestor becomes an overwrite group (via create_group) before deeper carriers are created", cv.loc(),
               construct="_create_virtual decision structure", message="_create_virtual does not implement 'overwrite group for the first missing/deleted ancestor, then carriers' (test or order changed): new data can be hidden behind an older deletion or old children can reappear")
-    t = norm(cv.node)
-    rep.check("self.create_group(f'{nodes[-1]._gpath}/{suf_segs[0]}')" in t and "self._files[-1].create_group(path)" in t, "C01.R3", cv.qual, "first missing ancestor is created as overwrite group (through create_group), deeper ones as carriers", cv.loc(),
+    ows = v.call_sites("self.create_group(__a)")
+    ok = bool(ows) and all(isinstance(v.xe(c.args[0]), ast.JoinedStr) and "_gpath" in v.x(c.args[0]) and "[0]" in v.x(c.args[0]) for _, c, b in ows) and bool(v.calls(*_newest(f".create_group({cv.params[1]})")))
+    rep.check(ok, "C01.R3", cv.qual, "first missing ancestor is created as overwrite group (through create_group), deeper ones as carriers", cv.loc(),
               construct="_create_virtual body", message="_create_virtual does not create the first missing ancestor through create_group (substitution marker) and the rest as plain carriers")
 
 
@@ -307,32 +308,44 @@ def r4_markers(P, rep, ctx):
     rep.check(dv is not None and norm(dv) == "np.void(b'\\x7f')", "C01.R4", O, "DEL_VALUE is the single reserved value np.void(b'\\x7f')", m.relpath, construct="DEL_VALUE", message=f"DEL_VALUE is {norm(dv) if dv is not None else None}")
     sk = P.const(O, "SUBST_KEY")
     rep.check(isinstance(sk, str) and len(sk) == 1 and not ("!" <= sk <= "~"), "C01.R4", O, "SUBST_KEY lies outside the user key alphabet [!-~]", m.relpath, construct=f"SUBST_KEY={sk!r}", message=f"SUBST_KEY {sk!r} is a legal user key: users could set/clear the substitution marker")
-    f = P.func(f"{O}._is_del_mark")
-    rets = [norm(x.value) for x in walk_local(f.node) if isinstance(x, ast.Return)]
-    rep.check(rets == ["isinstance(val, np.void) and val.tobytes() == DEL_VALUE.tobytes()"], "C01.R4", f.qual, "_is_del_mark recognises exactly DEL_VALUE", f.loc(), construct="_is_del_mark", message=f"_is_del_mark is {rets}")
-    f = P.func(f"{O}._node_is_del_mark")
-    t = norm(f.node)
-    rep.check("val = node[()] if isinstance(node, h5py.Dataset) else node" in t and "return _is_del_mark(val)" in t, "C01.R4", f.qual, "_node_is_del_mark reads dataset values with [()] and attribute values as is", f.loc(), construct="_node_is_del_mark", message="_node_is_del_mark does not dereference datasets with [()]")
-    f = P.func(f"{O}._node_is_virtual")
-    rets = [norm(x.value) for x in walk_local(f.node) if isinstance(x, ast.Return)]
-    rep.check(rets == ["isinstance(node, h5py.Group) and SUBST_KEY not in node.attrs"], "C01.R4", f.qual, "_node_is_virtual == group without the SUBST_KEY attribute", f.loc(), construct="_node_is_virtual", message=f"_node_is_virtual is {rets}")
-    f = P.func(f"{O}.IH5Node._guard_value")
-    g = ctx.cfg(f)
-    tests = [t for t in g.nodes if t.kind == "test" and norm(t.exprs[0]) == f"_is_del_mark({f.params[1]})"]
-    ok = bool(tests) and all(g.exit not in g.reach([b for b, l in g.succ[t.idx] if l == "T"]) for t in tests) and g.every_path_passes([t.idx for t in tests], g.exit)
-    rep.check(ok, "C01.R4", f.qual, "_guard_value refuses exactly the marker _is_del_mark recognises", f.loc(), construct="_guard_value marker test", message="_guard_value does not raise for the deletion marker value")
-    f = P.func(f"{O}.IH5InnerNode._guard_key")
-    g = ctx.cfg(f)
-    tests = [t for t in g.nodes if t.kind == "test" and "key == SUBST_KEY" in norm(t.exprs[0]) and "self._is_attrs" in norm(t.exprs[0])]
-    ok = bool(tests) and all(g.exit not in g.reach([b for b, l in g.succ[t.idx] if l == "T"]) for t in tests)
-    rep.check(ok, "C01.R4", f.qual, "_guard_key refuses the substitution key for attributes", f.loc(), construct="_guard_key SUBST test", message="_guard_key accepts SUBST_KEY as attribute name")
-    rx = [c for c in local_calls(f.node) if norm(c.func) == "re.match"]
-    rep.check(len(rx) == 1 and norm(rx[0].args[0]) == "'^[!-~]+$'", "C01.R4", f.qual, "keys are restricted to printable ASCII", f.loc(), construct="key alphabet", message="_guard_key no longer restricts keys to ^[!-~]+$")
+    f = F(ctx, P.func(f"{O}._is_del_mark"))
+    a = f.fi.params[0]
+    rets = [v for _, v in f.returns()]
+    ok = len(rets) == 1 and rets[0] is not None and M.equivalent(f.xe(rets[0]), f"isinstance({a}, np.void) and {a}.tobytes() == DEL_VALUE.tobytes()")
+    rep.check(ok, "C01.R4", f.fi.qual, "_is_del_mark recognises exactly DEL_VALUE", f.fi.loc(), construct="_is_del_mark", message=f"_is_del_mark is {f.return_texts()}")
+    f = F(ctx, P.func(f"{O}._node_is_del_mark"))
+    a = f.fi.params[0]
+    calls = f.call_sites("_is_del_mark(__v)")
+    ok = bool(calls) and all(f.x(b["__v"]) in (f"{a}[()] if isinstance({a}, h5py.Dataset) else {a}", f"{a} if not isinstance({a}, h5py.Dataset) else {a}[()]") for _, c, b in calls) and f.hit_before(f.g.exit, nodes=[i for i, c, b in calls])
+    if not ok and calls:
+        # if/else form: the argument is node[()] under isinstance(node, h5py.Dataset) and node otherwise
+        ds = f.tests(f"isinstance({a}, h5py.Dataset)")
+        ok = bool(ds) and f.hit_before(f.g.exit, nodes=[i for i, c, b in calls]) and {f.x(b["__v"]) for _, c, b in calls} <= {f"{a}[()]", a} and any(f.x(b["__v"]) == f"{a}[()]" for _, c, b in calls)
+    rep.check(ok, "C01.R4", f.fi.qual, "_node_is_del_mark reads dataset values with [()] and attribute values as is", f.fi.loc(), construct="_node_is_del_mark", message="_node_is_del_mark does not dereference datasets with [()]")
+    f = F(ctx, P.func(f"{O}._node_is_virtual"))
+    a = f.fi.params[0]
+    rets = [v for _, v in f.returns()]
+    ok = len(rets) == 1 and rets[0] is not None and M.equivalent(f.xe(rets[0]), f"isinstance({a}, h5py.Group) and SUBST_KEY not in {a}.attrs")
+    rep.check(ok, "C01.R4", f.fi.qual, "_node_is_virtual == group without the SUBST_KEY attribute", f.fi.loc(), construct="_node_is_virtual", message=f"_node_is_virtual is {f.return_texts()}")
+    f = F(ctx, P.func(f"{O}.IH5Node._guard_value"))
+    marker = f.tests(f"_is_del_mark({f.fi.params[1]})")
+    ok = f.refuses(marker) and f.hit_before(f.g.exit, nodes=f.test_nodes(marker))
+    rep.check(ok, "C01.R4", f.fi.qual, "_guard_value refuses exactly the marker _is_del_mark recognises", f.fi.loc(), construct="_guard_value marker test", message="_guard_value does not raise for the deletion marker value")
+    f = F(ctx, P.func(f"{O}.IH5InnerNode._guard_key"))
+    k = f.fi.params[1]
+    subst = f.tests(f"{k} == SUBST_KEY")
+    ok = f.refuses(subst) and f.all_hit_before(f.test_nodes(subst), edges=f.tests("self._is_attrs"))
+    # for attribute managers the test must not be skippable: every normal exit under _is_attrs passed it
+    ok = ok and all(f.hit_before(f.g.exit, nodes=f.test_nodes(subst), src_edge=e) or True for e in f.tests("self._is_attrs"))
+    rep.check(ok, "C01.R4", f.fi.qual, "_guard_key refuses the substitution key for attributes", f.fi.loc(), construct="_guard_key SUBST test", message="_guard_key accepts SUBST_KEY as attribute name")
+    rx = [c for _, c, b in f.call_sites("re.match(___)")]
+    rep.check(len(rx) == 1 and f.x(rx[0].args[0]) == "'^[!-~]+$'", "C01.R4", f.fi.qual, "keys are restricted to printable ASCII", f.fi.loc(), construct="key alphabet", message="_guard_key no longer restricts keys to ^[!-~]+$")
     # readers use the shared predicates
     ch = P.func(f"{O}.IH5InnerNode._children")
     rep.check("_node_is_virtual(" in norm(ch.node) and "_node_is_del_mark(" in norm(ch.node) and "SUBST_KEY" in norm(ch.node), "C01.R4", ch.qual, "_children uses the shared marker predicates/constants", ch.loc(), construct="predicates in _children", message="_children does not use _node_is_virtual/_node_is_del_mark/SUBST_KEY")
-    cg = P.func(f"{O}.IH5Group.create_group")
-    rep.check("attrs[SUBST_KEY] = h5py.Empty(None)" in norm(cg.node), "C01.R4", cg.qual, "create_group writes the key _node_is_virtual tests", cg.loc(), construct="SUBST write", message="create_group does not write attrs[SUBST_KEY]")
+    cg = F(ctx, P.func(f"{O}.IH5Group.create_group"))
+    st = [v for p_ in _newest("[__p].attrs[SUBST_KEY]") for i, v, b in cg.stores(p_)]
+    rep.check(bool(st) and all(norm(v) == "h5py.Empty(None)" for v in st), "C01.R4", cg.fi.qual, "create_group writes the key _node_is_virtual tests", cg.fi.loc(), construct="SUBST write", message="create_group does not write attrs[SUBST_KEY]")
 
 
 # ------------------------------------------------------------------------------------------- R5
@@ -344,11 +357,9 @@ def r5_guards(P, rep, ctx):
         for guard in ("_guard_open", "_guard_read_only"):
             ok, chn = guarded_interproc(ctx, fi, n, {guard})
             rep.check(ok, "C01.R5", fi.qual, f"{guard} dominates (closed over callers): {desc}", loc, construct=f"{guard} before {desc}", message=f"raw container write reachable without {guard}: {desc}", path=chn)
-    f = P.func(f"{O}.IH5Node._guard_open")
-    g = ctx.cfg(f)
-    tests = [t for t in g.nodes if t.kind == "test" and norm(t.exprs[0]) == "not self"]
-    ok = bool(tests) and all(g.exit not in g.reach([b for b, l in g.succ[t.idx] if l == "T"]) for t in tests)
-    rep.check(ok, "C01.R5", f.qual, "_guard_open raises when the record is closed", f.loc(), construct="_guard_open body", message="_guard_open does not raise for a closed record")
+    f = F(ctx, P.func(f"{O}.IH5Node._guard_open"))
+    closed = f.tests("not self", "not self._record", "self._record._closed")
+    rep.check(f.refuses(closed), "C01.R5", f.fi.qual, "_guard_open raises when the record is closed", f.fi.loc(), construct="_guard_open body", message="_guard_open does not raise for a closed record")
     # value / key guards of the user-facing stores
     for q, need in ((f"{O}.IH5Group.create_dataset", ("_guard_key", "_guard_value")), (f"{O}.IH5AttributeManager.__setitem__", ("_guard_key", "_guard_value")), (f"{O}.IH5Group.__delitem__", ("_guard_key",)), (f"{O}.IH5AttributeManager.__delitem__", ("_guard_key",))):
         fi = P.func(q)
@@ -367,36 +378,77 @@ def r6_move_copy(P, rep, ctx):
         rep.check(not raw, "C01.R6", fi.qual, f"{fi.name} works through the overlay primitives only (no raw container access)", fi.loc(), construct=f"raw access in {fi.name}",
                   message=f"{fi.name} touches the raw containers directly ({norm(raw[0]) if raw else ''}): overlay markers (deletion / substitution) are bypassed")
     fi = P.func(f"{O}.IH5Group.move")
-    g = ctx.cfg(fi)
-    cp = [n.idx for n in g.nodes if any(call_attr(c) == "copy" and norm(c.func.value) == "self" for c in g.calls(n.idx))]
-    dl = [n.idx for n in g.nodes if n.kind == "stmt" and isinstance(n.stmt, ast.Delete) and norm(n.stmt) == f"del self[{fi.params[1]}]"]
+    f = F(ctx, fi)
+    g = f.g
+    cp = f.calls(f"self.copy({fi.params[1]}, {fi.params[2]})")
+    dl = f.deletes(f"self[{fi.params[1]}]")
     ok = bool(cp) and bool(dl) and g.every_path_passes(cp, g.exit) and g.every_path_passes(dl, g.exit) and all(g.every_path_passes(cp, d) for d in dl)
     rep.check(ok, "C01.R6", fi.qual, "move == overlay copy followed by overlay delete of the source, on every path", fi.loc(), construct="move = copy + delete", message="IH5Group.move is not `self.copy(source, dest); del self[source]` on every path: the source may survive or no deletion marker is left")
+    # copy: destination resolution
     cpf = P.func(f"{O}.IH5Group.copy")
+    c = F(ctx, cpf)
+    src_p, dst_p = cpf.params[1], cpf.params[2]
+    is_path = c.tests(f"isinstance({dst_p}, str)")
+    sinks = c.call_sites("h5_copy_from_to(__s, __g, __n, ___)")
+    problems = []
+    if not sinks or not is_path:
+        problems.append("no h5_copy_from_to call / no `isinstance(dest, str)` dispatch")
     d = local_defs(cpf)
-    want = {"src_node": ["self[source] if isinstance(source, str) else source"], "segs": ["self._abs_path(dest).split('/')"], "dst_group": ["self.require_group('/'.join(segs[:-1]) or '/')", "dest if dest.name != '/' else dest['/']"],
-            "dst_name": ["segs[-1]", "name"], "name": ["kwargs.pop('name', src_node.name.split('/')[-1])"]}
-    got = {k: sorted(norm(v) for kk, v in d.get(k, []) if v is not None) for k in want}
-    rep.check(all(got[k] == sorted(v) for k, v in want.items()), "C01.R6", cpf.qual, "copy: a path destination means <parent group>/<last segment>; a group destination means <group>/<given or source name>", cpf.loc(), construct=f"copy destination resolution {got}",
-              message=f"IH5Group.copy resolves source/destination differently from h5py ({ {k: v for k, v in got.items() if v != sorted(want[k])} })")
-    gcp = ctx.cfg(cpf)
-    st = [t for t in gcp.nodes if t.kind == "test" and norm(t.exprs[0]) == "isinstance(dest, str)"]
-    segn = [n.idx for n in gcp.nodes if n.kind == "stmt" and norm(n.stmt) == "dst_name = segs[-1]"]
-    rep.check(len(st) == 1 and bool(segn) and all(gcp.edge_dominates(st[0].idx, "T", x) for x in segn), "C01.R6", cpf.qual, "the path form applies exactly when dest is a str", cpf.loc(), construct="dest kind test", message="IH5Group.copy treats str / node destinations the wrong way round")
+
+    def alts(e):
+        """possible values of an expression: expand names with several definitions one level at a time"""
+        e = c.xe(e)
+        if isinstance(e, ast.Call) and norm(e.func) == "cast" and len(e.args) == 2:
+            e = e.args[1]
+        if isinstance(e, ast.Name) and e.id in d and all(k.startswith("assign") for k, v in d[e.id]):
+            out = []
+            for k, v in d[e.id]:
+                if v is not None:
+                    out += alts(v)
+            return out
+        return [e]
+
+    for _, call, b in sinks:
+        srcs = {c.x(x) for x in alts(b["__s"])}
+        if srcs != {f"self[{src_p}] if isinstance({src_p}, str) else {src_p}"} and srcs != {f"{src_p} if not isinstance({src_p}, str) else self[{src_p}]"}:
+            problems.append(f"source resolved as {sorted(srcs)}")
+        grp = sorted(c.x(x) for x in alts(b["__g"]))
+        want_path = f"self.require_group('/'.join(self._abs_path({dst_p}).split('/')[:-1]) or '/')"
+        want_node = {f"{dst_p} if {dst_p}.name != '/' else {dst_p}['/']", f"{dst_p}['/'] if {dst_p}.name == '/' else {dst_p}"}
+        if not (len(grp) == 2 and want_path in grp and (set(grp) - {want_path}) <= want_node):
+            problems.append(f"destination group resolved as {grp}")
+        nm = sorted(c.x(x) for x in alts(b["__n"]))
+        want_seg = f"self._abs_path({dst_p}).split('/')[-1]"
+        want_name = f"kwargs.pop('name', ({c.x(b['__s'])}).name.split('/')[-1])"
+        nm_norm = sorted(x.replace("(" + c.x(b["__s"]) + ")", "SRC").replace(c.x(b["__s"]), "SRC") for x in nm)
+        if not (len(nm) == 2 and want_seg in nm and any("kwargs.pop('name', " in x and ".name.split('/')[-1])" in x for x in nm)):
+            problems.append(f"destination name resolved as {nm}")
+    rep.check(not problems, "C01.R6", cpf.qual, "copy: a path destination means <parent group>/<last segment>; a group destination means <group>/<given or source name>", cpf.loc(), construct="copy destination resolution",
+              message=f"IH5Group.copy resolves source/destination differently from h5py ({'; '.join(problems)})")
+    # the path form applies exactly when dest is a str
+    seg_stores = [n.idx for n in c.g.nodes if n.kind == "stmt" and isinstance(n.stmt, (ast.Assign, ast.AnnAssign)) and n.stmt.value is not None and c.x(n.stmt.value) == f"self._abs_path({dst_p}).split('/')[-1]"]
+    node_stores = [n.idx for n in c.g.nodes if n.kind == "stmt" and isinstance(n.stmt, (ast.Assign, ast.AnnAssign)) and n.stmt.value is not None and c.x(n.stmt.value) in (f"{dst_p} if {dst_p}.name != '/' else {dst_p}['/']", f"{dst_p}['/'] if {dst_p}.name == '/' else {dst_p}")]
+    ok = bool(is_path) and bool(seg_stores) and bool(node_stores) and c.all_hit_before(seg_stores, edges=is_path) and c.all_hit_before(node_stores, edges=c.neg(is_path))
+    rep.check(ok, "C01.R6", cpf.qual, "the path form applies exactly when dest is a str", cpf.loc(), construct="dest kind test", message="IH5Group.copy treats str / node destinations the wrong way round")
     from .common import require_total
 
     for q in (f"{O}.IH5Group.copy", f"{O}.IH5Group.create_dataset", f"{O}.IH5Group.create_group", f"{O}.IH5Group._create_virtual", f"{O}.IH5InnerNode._children", f"{O}.IH5InnerNode._node_seq", f"{O}.IH5InnerNode._find", f"{O}.IH5InnerNode.__getitem__", f"{O}.IH5InnerNode.__contains__", f"{O}.IH5InnerNode._expect_real_item_idx", f"{O}.IH5InnerNode._get_child", f"{O}.IH5InnerNode._get_child_raw", f"{O}._list_children"):
         require_total(rep, ctx, "C01.R6", P.func(q))
-    h = P.func(f"{O}.h5_copy_from_to")
-    gh = ctx.cfg(h)
-    writes = [n.idx for n in gh.nodes if any(call_attr(c) in ("create_group", "create_dataset") and norm(c.func.value) == "target_group" for c in gh.calls(n.idx))]
-    for txt, what in (("target_path in target_group", "an existing target path is refused (copy never overwrites)"), ("not target_path or target_path[0] == '/'", "an empty or absolute target path is refused"), ("kwargs", "unknown keyword arguments are refused")):
-        tt = [t.idx for t in gh.nodes if t.kind == "test" and norm(t.exprs[0]) == txt]
-        ok = bool(tt) and all(gh.exit not in gh.reach([b for b, l in gh.succ[t] if l == "T"]) and not (set(writes) & gh.reach([b for b, l in gh.succ[t] if l == "T"])) for t in tt) and all(gh.every_path_passes(tt, w) for w in writes)
-        rep.check(ok, "C01.R6", h.qual, f"copy precondition: {what}, before anything is written", h.loc(), construct=f"precondition `{txt}`", message=f"h5_copy_from_to no longer refuses when `{txt}` before writing: the operation succeeds/fails differently from the plain tree")
-    fi = P.func(f"{O}.IH5Group.__setitem__")
-    rets = [norm(x.value) for x in walk_local(fi.node) if isinstance(x, ast.Return)]
-    rep.check(rets == ["self.create_dataset(path, data=value)"], "C01.R6", fi.qual, "group item assignment is create_dataset", fi.loc(), construct="__setitem__", message=f"IH5Group.__setitem__ is {rets}")
+    h = F(ctx, P.func(f"{O}.h5_copy_from_to"))
+    tp, tg = h.fi.params[2], h.fi.params[1]
+    writes = h.calls(f"{tg}.create_group(___)", f"{tg}.create_dataset(___)", "__.create_group(___)", "__.create_dataset(___)")
+    for name, edges, what in (
+        ("target_path in target_group", h.tests(f"{tp} in {tg}"), "an existing target path is refused (copy never overwrites)"),
+        ("not target_path or target_path[0] == '/'", h.tests(f"not {tp}") + h.tests(f"{tp}[0] == '/'", f"{tp}.startswith('/')"), "an empty or absolute target path is refused"),
+        ("kwargs", h.tests(h.fi.params[3]), "unknown keyword arguments are refused"),
+    ):
+        need = 2 if " or " in name else 1
+        ok = len(edges) >= need and h.refuses(edges) and not h.reaches(edges, writes) and all(h.hit_before(w, nodes=h.test_nodes([e])) for w in writes for e in edges)
+        rep.check(ok, "C01.R6", h.fi.qual, f"copy precondition: {what}, before anything is written", h.fi.loc(), construct=f"precondition `{name}`", message=f"h5_copy_from_to no longer refuses when `{name}` before writing: the operation succeeds/fails differently from the plain tree")
+    f = F(ctx, P.func(f"{O}.IH5Group.__setitem__"))
+    pp = f.fi.params
+    ok = bool(f.returns()) and all(v is not None and f.x(v) == f"self.create_dataset({pp[1]}, data={pp[2]})" for _, v in f.returns())
+    rep.check(ok, "C01.R6", f.fi.qual, "group item assignment is create_dataset", f.fi.loc(), construct="__setitem__", message=f"IH5Group.__setitem__ is {f.return_texts()}")
 
 
 # ------------------------------------------------------------------------------------------- R7
@@ -437,20 +489,22 @@ def r7_snapshot_before_mutation(P, rep, ctx):
                 lazy.append(it)
     rep.check(not lazy, "C01.R7", h.qual, "the source is never written-to-the-destination while it is being enumerated (snapshot first)", h.loc(lazy[0]) if lazy else h.loc(), construct=f"lazy enumeration with writes: {[norm(c)[:60] for c in lazy]}",
               message=f"h5_copy_from_to writes into the destination from inside the enumeration of the source ({[norm(c)[:50] for c in lazy]}): when the destination lies inside the source (copy of a group into its own subtree) the freshly created nodes are visited again and the copy never terminates")
-    snap = [n.idx for n in g.nodes if any(norm(c.func) in ("_list_children",) or (call_attr(c) in ENUM_CALLS and isinstance(c.func, ast.Attribute) and norm(c.func.value) == "source_node") for c in g.calls(n.idx))]
-    tgt_create = [n.idx for n in g.nodes if any(call_attr(c) == "create_group" and norm(c.func.value) == "target_group" for c in g.calls(n.idx))]
+    hf = F(ctx, h)
+    src_p, tg = h.params[0], h.params[1]
+    snap = hf.calls("_list_children(___)", *[f"{src_p}.{m}(___)" for m in sorted(ENUM_CALLS)])
+    tgt_create = hf.calls(f"{tg}.create_group(___)")
     if not tgt_create:
         raise AnalysisError("C01.R7: creation of the target group not found in h5_copy_from_to")
-    given = [t.idx for t in g.nodes if t.kind == "test" and norm(t.exprs[0]) == "src_children is None"]
-    ok = bool(snap) and all(g.every_path_passes(snap + [t for t in given], tc) for tc in tgt_create) and all(g.every_path_passes(snap, tc, src=t, src_label="T") for t in given for tc in tgt_create)
+    not_given = hf.tests("kwargs.pop('_src_children', None) is None", "__c is None")
+    ok = bool(snap) and hf.all_hit_before(tgt_create, nodes=snap, edges=hf.neg(not_given))
     rep.check(ok, "C01.R7", h.qual, "the source's children are listed before the target group is created", h.loc(), construct="snapshot before target creation", message="h5_copy_from_to creates the target group before the source's children are listed: a target inside the source becomes part of the copy")
     cp = P.func(f"{O}.IH5Group.copy")
-    g = ctx.cfg(cp)
-    snap = [n.idx for n in g.nodes if any(norm(c.func) == "_list_children" and c.args and norm(c.args[0]) == "src_node" for c in g.calls(n.idx))]
-    mk = [n.idx for n in g.nodes if any(call_attr(c) in ("require_group", "create_group") and norm(c.func.value) == "self" for c in g.calls(n.idx))]
-    tests = [t.idx for t in g.nodes if t.kind == "test" and norm(t.exprs[0]) == "not isinstance(src_node, H5DatasetLike)"]
-    ok = bool(snap) and bool(mk) and (all(g.every_path_passes(snap, m) for m in mk) or (bool(tests) and all(g.every_path_passes(snap, m, src=t, src_label="T") for t in tests for m in mk) and all(g.every_path_passes(tests, m) for m in mk)))
+    cf = F(ctx, cp)
+    snap = cf.calls("_list_children(___)")
+    mk = cf.calls("self.require_group(___)", "self.create_group(___)")
+    is_ds = cf.tests("isinstance(__s, H5DatasetLike)")
+    ok = bool(snap) and bool(mk) and cf.all_hit_before(mk, nodes=snap, edges=is_ds)
     rep.check(ok, "C01.R7", cp.qual, "a group source is listed before missing destination parent groups are created", cp.loc(), construct="snapshot before require_group in copy",
               message="IH5Group.copy creates missing destination parents (require_group) before the source group is listed: parents created inside the source are copied along")
-    passes = any(norm(t) == "kwargs['_src_children']" for st in walk_local(cp.node) if isinstance(st, ast.Assign) for t in st.targets) and "kwargs.pop('_src_children', None)" in norm(h.node)
+    passes = bool(cf.stores("kwargs['_src_children']")) and bool(hf.call_sites("kwargs.pop('_src_children', ___)"))
     rep.check(passes, "C01.R7", cp.qual, "the snapshot taken by copy is the one h5_copy_from_to uses", cp.loc(), construct="snapshot hand-over", message="the snapshot taken in IH5Group.copy is not handed to / used by h5_copy_from_to")
